@@ -234,6 +234,9 @@ func (tp *TableParser) parseRow(row tableRowXML) ParsedTableRow {
 	return parsed
 }
 
+// maxTableColumns is the column limit of WordprocessingML tables (Word refuses more than 63).
+const maxTableColumns = 63
+
 // parseCell parses a table cell.
 func (tp *TableParser) parseCell(cell tableCellXML) ParsedTableCell {
 	parsed := ParsedTableCell{
@@ -246,6 +249,11 @@ func (tp *TableParser) parseCell(cell tableCellXML) ParsedTableCell {
 	// Parse column span (gridSpan)
 	if props.GridSpan.Val != "" {
 		if span, err := strconv.Atoi(props.GridSpan.Val); err == nil && span > 0 {
+			// The number is free text in the file; column counts are summed and size slices.
+			// A Word table has at most 63 columns, so no cell spans more than that.
+			if span > maxTableColumns {
+				span = maxTableColumns
+			}
 			parsed.ColSpan = span
 		}
 	}
